@@ -134,6 +134,9 @@ pub enum CookieAnswer {
     Outs(Vec<Out>),
     /// do not answer
     Ignore,
+    /// like Normal, but the client first lets this much *real* time pass (the wall clock moves,
+    /// the virtual clock does not): for whatever the server decides by the wall clock
+    NormalAfterReal(Duration),
 }
 
 /// How outgoing frames are cut into segments.
@@ -366,8 +369,11 @@ impl<'a, T: Transport> Client<'a, T> {
                 let n = self.cookie_requests;
                 self.cookie_requests += 1;
                 let answer = self.plan.cookie_answers.get(n).cloned().unwrap_or(CookieAnswer::Normal);
+                if let CookieAnswer::NormalAfterReal(d) = &answer {
+                    std::thread::sleep(*d);
+                }
                 match answer {
-                    CookieAnswer::Normal => {
+                    CookieAnswer::Normal | CookieAnswer::NormalAfterReal(_) => {
                         let payload = self.plan.cookies.iter().find(|(k, _)| *k == key).and_then(|(_, p)| p.clone());
                         self.scheduled.push(Scheduled {
                             at: now,
